@@ -1,10 +1,14 @@
 #!/bin/sh
 # usage: tools/mut.sh <patchfile|-> <ID>...   applies a patch to a scratch worktree of /repo and runs the checks there
+# (on a private copy of coq/, so it can run next to other checks)
 P="$1"; shift
 WT=/tmp/wt_mut_$$
+CQ=/tmp/coq_mut_$$
 git -C /repo worktree add -q "$WT" HEAD || exit 2
 if [ "$P" != "-" ]; then git -C "$WT" apply "$P" || { echo "patch does not apply"; git -C /repo worktree remove --force "$WT"; exit 2; }; fi
 [ -n "$MUT_SED" ] && sed -i "$MUT_SED" "$WT/$MUT_FILE"
 git -C "$WT" diff --stat | tail -1
-for id in "$@"; do VERIF_REPO="$WT" VERIF_EVIDENCE_DIR=/tmp/ev_mut /verif/check "$id" | tail -2; done
+cp -r /verif/coq "$CQ"
+for id in "$@"; do VERIF_REPO="$WT" VERIF_COQ="$CQ" VERIF_EVIDENCE_DIR=/tmp/ev_mut /verif/check "$id" $MUT_ARGS | grep -v '^validation loss' | tail -${MUT_TAIL:-2}; done
+rm -rf "$CQ"
 git -C /repo worktree remove --force "$WT"
